@@ -259,6 +259,15 @@ func genC09(g *Gen) error {
 		{"src_readLastRowIndex", "engine/immutable/reader.go", "readLastRowIndex"},
 		{"src_findRowIdxRange", "engine/immutable/reader.go", "findRowIdxRange"},
 		{"src_countMeta_skeleton", "engine/immutable/reader.go", "AggregateData"},
+		{"src_string_addValues", "engine/immutable/pre_aggregation.go", "StringPreAgg.addValues"},
+		{"src_bool_addValues", "engine/immutable/pre_aggregation.go", "BooleanPreAgg.addValues"},
+		{"src_int_merge", "engine/immutable/pre_aggregation.go", "IntegerPreAgg.merge"},
+		{"src_float_merge", "engine/immutable/pre_aggregation.go", "FloatPreAgg.merge"},
+		{"src_isPreAggRead", "engine/immutable/location.go", "Location.isPreAggRead"},
+		{"src_countMeta", "engine/immutable/reader.go", "countMeta"},
+		{"src_sumMeta", "engine/immutable/reader.go", "sumMeta"},
+		{"src_sumRangeValues", "engine/immutable/reader.go", "sumRangeValues"},
+		{"src_readTimeCount", "engine/immutable/reader.go", "readTimeCount"},
 	} {
 		if err := src(s[0], s[1], s[2]); err != nil {
 			return err
@@ -279,6 +288,38 @@ func genC09(g *Gen) error {
 			return true
 		})
 		g.StrList("conds_"+fn, conds)
+	}
+	// the decisions of the chunk readers (which `if`s, in order): stored statistics when
+	// allRowsInRange, data otherwise; segments that do not overlap are skipped
+	for _, fn := range []string{"readSumCount", "readMinMax", "readSumCountFromData", "readMinMaxFromData", "loopMinRowindex", "loopMaxRowindex"} {
+		fd, err := g.Func("engine/immutable/reader.go", fn)
+		if err != nil {
+			return err
+		}
+		var conds []string
+		ast.Inspect(fd.Body, func(n ast.Node) bool {
+			if is, ok := n.(*ast.IfStmt); ok {
+				conds = append(conds, g.Src(is.Cond))
+			}
+			return true
+		})
+		g.StrList("conds_"+fn, conds)
+	}
+	for _, fn := range [][2]string{{"engine/immutable/location.go", "Location.readData"}, {"engine/immutable/tssp_file.go", "tsspFileReader.ReadData"},
+		{"engine/immutable/first_last_reader.go", "FirstLastReader.Read"}} {
+		fd, err := g.Func(fn[0], fn[1])
+		if err != nil {
+			return err
+		}
+		var conds []string
+		ast.Inspect(fd.Body, func(n ast.Node) bool {
+			if is, ok := n.(*ast.IfStmt); ok {
+				conds = append(conds, g.Src(is.Cond))
+			}
+			return true
+		})
+		name := fn[1][strings.Index(fn[1], ".")+1:]
+		g.StrList("conds_"+strings.Split(fn[1], ".")[0]+"_"+name, conds)
 	}
 	// the time a partially covered segment reports for first/last without nulls
 	fd, err = g.Func("engine/immutable/first_last_reader.go", "FirstLastReader.Read")
